@@ -105,6 +105,25 @@ class Slicer:
         self.last_blocks = seen_b
         return seen_l, sorted(calls.items())
 
+    def backward_from_blocks(self, blocks):
+        """slice of everything the given blocks compute and depend on: the locals their statements and terminators
+        read are data seeds, the blocks themselves control seeds. Sets self.last_blocks."""
+        seeds = set()
+        for b in blocks:
+            blk = self.f["blocks"][b]
+            for s in blk["stmts"]:
+                seeds |= _rv_locals(s["rv"])
+                if s["dst"] is not None and s["dst"]["p"]:
+                    seeds |= _place_locals(s["dst"]) - {s["dst"]["l"]}
+            t = blk["term"]
+            if t["k"] == "call":
+                for a in t["args"]:
+                    seeds |= _operand_locals(a)
+            elif t["k"] == "switch":
+                seeds |= _operand_locals(t["discr"])
+        nargs = self.f["args"] if isinstance(self.f["args"], int) else len(self.f["args"])
+        return self.backward([l for l in seeds if l > nargs or l == 0], list(blocks))
+
     def data_backward(self, seed_locals):
         """data dependence only (no control dependence): which locals / parameters can flow into the seeds"""
         seen, work = set(), list(seed_locals)
